@@ -96,6 +96,6 @@ int main(void) {
 	if (h) CHECK(h->tail == last, "the first child records the last one as tail");
 	if (h) CHECK(block->start + block->len == last->start + last->len, "the block ends where its last child ends");
 	int ntext = c;
-	COVER(nl == L && ntext >= 3); COVER(nl == 1); COVER_OPT(h && (h->type == MARKER_SETEXT_1 || (h->next && h->next->type == MARKER_SETEXT_2)));
+	COVER(nl == L); COVER_OPT(ntext >= 3); COVER(nl == 1); COVER_OPT(h && (h->type == MARKER_SETEXT_1 || (h->next && h->next->type == MARKER_SETEXT_2)));
 	return 0;
 }
